@@ -132,8 +132,9 @@ class Ctx:
             'violations': len(viol),
         }
         ev['coverage'].update(self.extra)
-        with open(os.path.join(EVID, self.prop + '.json'), 'w') as fh:
-            json.dump(ev, fh, indent=1, default=str)
+        if os.environ.get('VERIF_NO_EVIDENCE') != '1':   # seeded-change runs (bin/seedcheck) must not overwrite the evidence
+            with open(os.path.join(EVID, self.prop + '.json'), 'w') as fh:
+                json.dump(ev, fh, indent=1, default=str)
         print('[%s] %d obligations: %d held, %d known findings, %d violated, %d inconclusive; %.1fs' %
               (self.prop, len(self.obs), len(held), len(known), len(viol), len(inc), wall))
         if viol:
